@@ -25,5 +25,10 @@ OBLIGATIONS = [
     _o("pretty_one", 60, "<p>t<el>t[<child/>]</el>t</p>, 5 element kinds, every text/tail in {None,'','a',' '}"),
     _o("pretty_two", 130, "<p>t<el/>t<el>t</el></p>, 5 x 5 element kinds, outside the known-finding region"),
     _o("pretty_part_pure", 31, "XmlPart over the one-child shapes: custom_pretty_tree twice, in-memory tree compared"),
+    Obl(name="save_neutral", module="h_docsave", func="save_neutral", shadow=True, timeout=600, replay="r_h_docsave:save_neutral", weight=75,
+        bounds="Document over an in-memory container: parts touched before saving (content, styles), pretty flag of the first save, paragraph texts from a list - all symbolic choices; then a plain save",
+        encodes=["src/odfdo/document.py:Document.save,get_part,content,styles,body,_check_manifest_rdf", "src/odfdo/xmlpart.py:XmlPart.serialize,pretty_serialize,custom_pretty_tree,_get_tree,root",
+                 "src/odfdo/meta.py:Meta.set_generator_default"],
+        stubs=_STUB + ["h_docsave.MemContainer: dict-backed subclass of Container (get_part/set_part/del_part/parts/save), no zip or filesystem"]),
     _o("pretty_two_region", 50, "companion of known finding C11-pretty-leaks-space", expect="finding", finding="C11-pretty-leaks-space"),
 ]
